@@ -397,6 +397,27 @@ def run(ctx):
                 if x in xs:
                     X[off[x]:off[x] + sizes[x]] = xs[x].to_dense().reshape(-1)
             check_system(ctx, case, name, A, Bv.reshape(tot, 1), X.reshape(tot, 1), 'multi_solve')
+            # the block elimination itself: the model `Ms.multiSolve` run with the elimination order the implementation chose
+            from fggs.multi import _order_nonterminals
+            kidx = {x: i for i, x in enumerate(keys)}
+            order = [kidx[x] for x in _order_nonterminals(a)]
+            encs = (lambda v: enc_ext(bool(v))) if name == 'bool' else enc_ext
+            enc_a = enc_list(list(dense_blocks.items()), lambda kv: f'{kidx[kv[0][0]]} {kidx[kv[0][1]]} ' +
+                             enc_list(kv[1].reshape(sizes[kv[0][0]], sizes[kv[0][1]]).tolist(), lambda row: enc_list(row, encs)))
+            enc_b = enc_list(list(bd.items()), lambda kv: f'{kidx[kv[0]]} ' + enc_list(kv[1].reshape(-1).tolist(), encs))
+            rep = ctx.driver.ask(f'C09.multiSolve {name} {enc_list([sizes[x] for x in keys])} {enc_list(order)} {enc_a} {enc_b} {"T" if transpose else "F"}')
+            tk = Toks(rep)
+            mblocks = tk.list(lambda: tk.list((lambda: tk.next() == 'T') if name == 'bool' else tk.ext))
+            from . import semgen
+            ctx.evaluations += 1
+            if sorted(order) != (list(range(len(keys))) if present else []):     # no block at all: nothing to eliminate, order is empty
+                ctx.fail('_order_nonterminals is not a permutation of the nonterminals', case, order, list(range(len(keys))), tags=['multi_solve', 'order'])
+            for x in keys:
+                got = xs[x].to_dense().reshape(-1).tolist() if x in xs else [zero] * sizes[x]
+                m = mblocks[kidx[x]]
+                if len(got) != len(m) or not all(semgen.exact_eq(g, c, torch.float64) for g, c in zip(got, m)):
+                    ctx.disagree('Ms.multiSolve (block elimination in the implementation\'s order) vs multi_solve', dict(case, order=order, block=x), got, [str(c) for c in m])
+                    break
             # multi_mv equals the dense matrix-vector product
             try:
                 mv = multi_mv(a, b, transpose=transpose)
